@@ -172,6 +172,8 @@ structure Env where
   otherDelays : Bool     -- delays of other changing handlers (optional deletion handlers, retries)
   mergeChanges : Bool    -- the dict content changes the object (a merge patch that changes nothing — e.g. the
                          -- constant result of an on.event handler — is answered with the old version: NO event)
+  userFns : Bool         -- handlers put transformation fns of their own into the patch which have nothing to change
+                         -- (a state-checking fn that is already satisfied): the patch is non-empty, no op results
   delReset : Bool        -- this handling pass leaves the mandatory deletion handlers UNFINISHED again: their
                          -- finished record was purged (at the completion of an earlier pass, or because they
                          -- were not selected in a pass that closed: repair 2ae938f) and they are re-invoked
@@ -296,12 +298,14 @@ inductive Reach (own : String) : State → Prop where
   | init {s} : Init s → Reach own s
   | step {s l s'} : Reach own s → step own s l = some s' → Reach own s'
 
-/-- The guard of `never_early_partial`: the one way a stale removal decision still reaches the server
-(finding F5b). When a removal is queued, no foreign write slips in between the decision and the
-cycle's own merge patch (whose response re-bases the `test`). Every other label is unconstrained:
-in particular any number of genuine or injected HTTP 422. -/
+/-- The guard of `never_early_partial`: exactly the gap of finding F5b. When the cycle's own merge patch is
+sent while a removal is queued, nothing requires the finalizer (again) at that moment — i.e. no foreign write
+since the decision has made a mandatory deletion handler or a daemon match again. (The response of that merge
+patch re-bases the `test` of the JSON patch, so such a write would go unnoticed; writes that leave the object
+unrequired are harmless and allowed.) Every other label is unconstrained: in particular foreign writes between
+the merge patch and the JSON patch, and any number of genuine or injected HTTP 422. -/
 def Guard (s : State) : Label → Prop
-  | .mergePatch => ∀ p, s.pending = some p → Fn.allow ∈ p.fns → s.rv = p.rvTest
+  | .mergePatch => ∀ p, s.pending = some p → Fn.allow ∈ p.fns → required s = false
   | _ => True
 
 inductive ReachG (own : String) : State → Prop where
@@ -312,7 +316,7 @@ inductive ReachG (own : String) : State → Prop where
 content, no other handler's delay, no re-scheduled deletion handler. -/
 def quiet : Env :=
   { consistent := true, merge := false, otherChanging := false, otherDelays := false, mergeChanges := false,
-    delReset := false }
+    userFns := false, delReset := false }
 
 /-- The labels of one processing cycle that nobody interferes with. -/
 def cycleLabels (s : State) (e : Env) : List Label :=
@@ -358,6 +362,7 @@ structure LState where
   cycMerge : Bool       -- its patch has dict content
   cycChanges : Bool     -- … whose response carried another version than the body the cycle works on
   cycViewRv : Nat       -- the version of that body (`seen_version`)
+  cycUserFns : Bool     -- its patch also holds handler-supplied fns that yield no operation
   deriving DecidableEq, Repr
 
 inductive LLabel where
@@ -370,9 +375,10 @@ sleep (then touch) iff there are delays and not `changed`. -/
 def sleepsAfter (delays changed : Bool) : Bool := delays && !changed
 
 /-- `changed` for a cycle whose JSON patch was not written (no ops, or HTTP 422): with dict content the merge
-patch's response decides; without it a non-empty patch has fns only and no version came back. -/
-def changedUnwritten (cycMerge cycChanges : Bool) (fns : List Fn) : Bool :=
-  if cycMerge then cycChanges else !fns.isEmpty
+patch's response decides; without it a non-empty patch has fns only and no version came back — also when
+no request was sent at all because the fns had nothing to change (open finding F8). -/
+def changedUnwritten (cycMerge cycChanges cycUserFns : Bool) (fns : List Fn) : Bool :=
+  if cycMerge then cycChanges else (!fns.isEmpty || cycUserFns)
 
 /-- A stored new version is delivered to the worker as one more event. -/
 def enqueue (s : LState) (b : State) : List Snap :=
@@ -395,7 +401,7 @@ def lstep (own : String) (s : LState) : LLabel → Option LState
           else (step own s.base l).map fun b =>
             { base := b, queue := rest, sleeping := false,
               cycDelays := (decision (inputs own v s.base e)).delays, cycMerge := e.merge, cycChanges := false,
-              cycViewRv := v.rv }
+              cycViewRv := v.rv, cycUserFns := e.userFns }
     | .mergePatch =>
         (step own s.base l).map fun b => { s with base := b, queue := enqueue s b, cycChanges := b.rv != s.cycViewRv }
     | .jsonPatch _ =>
@@ -403,11 +409,12 @@ def lstep (own : String) (s : LState) : LLabel → Option LState
           if b.rv != s.base.rv then { s with base := b, queue := enqueue s b }     -- the accepted write is an event
           else { s with base := b,
                         sleeping := sleepsAfter s.cycDelays
-                          (changedUnwritten s.cycMerge s.cycChanges (match s.base.pending with | some p => p.fns | none => [])) }
+                          (changedUnwritten s.cycMerge s.cycChanges s.cycUserFns
+                            (match s.base.pending with | some p => p.fns | none => [])) }
     | .restart =>
         (step own s.base l).map fun b =>
           { base := b, queue := [snap b], sleeping := false, cycDelays := false, cycMerge := false, cycChanges := false,
-            cycViewRv := b.rv }
+            cycViewRv := b.rv, cycUserFns := false }
     | _ =>   -- foreign writes and completions: a new version is an event
         (step own s.base l).map fun b => { s with base := b, queue := enqueue s b }
 
@@ -420,12 +427,15 @@ def LInit (s : LState) : Prop :=
   Init s.base ∧ s.queue = [snap s.base] ∧ s.sleeping = false ∧ s.cycDelays = false ∧ s.cycMerge = false ∧
   s.cycChanges = false
 
-/-- What the liveness theorems assume of the environment (everything else is free): no HTTP 422 is injected
-without a real concurrent write. (Kubernetes answers 422 to the `test` op only when the version has moved,
-i.e. after a write, whose event is the wake-up; an injected one leaves a non-empty patch with unknown
-outcome — the sleep is skipped — and no event. Still needed after 7224f57.) -/
+/-- What the liveness theorems assume of the environment (everything else is free):
+* no HTTP 422 is injected without a real concurrent write (Kubernetes answers 422 to the `test` op only when
+  the version has moved, i.e. after a write, whose event is the wake-up; an injected one leaves a non-empty
+  patch with unknown outcome — the sleep is skipped — and no event);
+* no cycle's patch holds handler-supplied fns that yield no operation (open finding F8 = C03-N1: no request
+  is sent, `apply` takes the missing version for a change and skips the sleep: `noop_fn_loses_wakeup`). -/
 def LGuard : LLabel → Prop
   | .base (.jsonPatch forced) => forced = false
+  | .base (.decide e _) => e.userFns = false
   | _ => True
 
 inductive LReach (own : String) : LState → Prop where
